@@ -122,7 +122,18 @@ func RenderStream(r *fw.Rand, specs []*Spec, o StreamOpts) ([]byte, []*Spec, Str
 		maxSinceSibling[ln.level] = ln.level
 		lvl := ln.level
 		if o.InvalidIndents && !o.Plain && idx > 0 && ln.level == prevLevel+1 && r.Chance(1, 5) {
-			lvl = ln.level + 1 + r.Intn(3) // over-deep: must hang below the deepest open node
+			// over-deep: must hang below the deepest open node, however far the
+			// level overshoots (one digit, two, three, or close to the int range)
+			switch r.Intn(8) {
+			case 0:
+				lvl = ln.level + 10 + r.Intn(90)
+			case 1:
+				lvl = 100 + r.Intn(900)
+			case 2:
+				lvl = []int{1000, 65536, 1 << 31, 1<<31 + 1, 1 << 32, 1<<62 + r.Intn(1000), 1<<63 - 1}[r.Intn(7)]
+			default:
+				lvl = ln.level + 1 + r.Intn(3)
+			}
 			info.OverDeep++
 		}
 		prevLevel = ln.level
